@@ -92,6 +92,7 @@ class DenseHistory {
     uint64_t m_hash = 0;
     uint64_t m_evals = 0;
     int m_nslots = NS;
+    int64_t m_iter_budget = 1000000;    // complete iterations allowed before the final ones (cost control)
 
     // largest id that may be passed to set/unset: bounded by the memory of the
     // chunk-pointer vector (8 bytes per chunk below the largest id)
@@ -206,9 +207,13 @@ class DenseHistory {
                                idlist(exp).c_str(), static_cast<uint64_t>(cs.size())));
     }
 
-    void check_full(int si) {
+    void check_full(int si, bool final = false) {
         check_light(si, m_used.empty() ? 0 : m_used.back());
         check_members(si);
+        if (!final) {
+            if (m_iter_budget <= 0) { vh::count("dense_iterations_skipped_for_cost"); return; }
+            --m_iter_budget;
+        }
         check_iteration(si, static_cast<int>(m_rng.below(3)));
     }
 
@@ -228,9 +233,11 @@ public:
 
     void setup(int cat, bool heavy, int heavy_variant) {
         const uint64_t hard = hard_limit(heavy);
+        if (CB >= 22) { m_nslots = 2; m_iter_budget = 2; }   // walking one 4 MiB chunk costs ~0.1 s under ASan
         if (heavy) {
             m_far = true;
             m_nslots = 2;
+            m_iter_budget = 2;
             m_limit = hard;
             if (is32) {
                 if (heavy_variant % 2 == 1) m_limit = TMAX - C;      // stay below the top chunk
@@ -260,8 +267,8 @@ public:
             m_anchors = {m_limit, m_limit - C + 1, C};
             if (is32) m_anchors.push_back(1ULL << 31);
             else if ((1ULL << 32) <= m_limit) m_anchors.push_back(1ULL << 32);
-            if (is32 && CB < 8) m_far = (hard / C) > 4096;
         }
+        if (m_far && CB < 22) m_iter_budget = 6;
     }
 
     void run(uint64_t nops) {
@@ -313,7 +320,7 @@ public:
                 check_light(si, id);
             } else if (r < 80) {
                 logop("%d.iterate", si);
-                if (!m_far || m_rng.chance(1, 3)) { check_members(si); check_iteration(si, static_cast<int>(m_rng.below(3))); }
+                check_full(si);
             } else if (r < 84) {
                 const int sj = static_cast<int>(m_rng.below(m_nslots));
                 logop("%d=copy(%d)", sj, si);
@@ -370,7 +377,7 @@ public:
                 vh::count("dense_random_get");
             }
         }
-        for (int si = 0; si < m_nslots; ++si) { logop("%d.final", si); check_full(si); }
+        for (int si = 0; si < m_nslots; ++si) { logop("%d.final", si); check_full(si, true); }
         bool any_top = false, any64 = false;
         for (int si = 0; si < m_nslots; ++si) {
             any_top = any_top || m_slots[si].top_used;
@@ -392,11 +399,13 @@ void dense_case(uint64_t idx, vh::Rng& rng, bool heavy, int variant) {
     if (!heavy) {
         const uint64_t r = rng.below(100);
         cat = r < 50 ? CAT_LOW : r < 80 ? CAT_MID : CAT_TOP;
+        if (variant >= 0) cat = variant;   // forced universe
     }
     static const char* CN[] = {"low", "mid", "top"};
     DenseHistory<T, CB> h{rng};
     h.setup(cat, heavy, variant);
     uint64_t nops = heavy ? 14 : cat == CAT_LOW ? 20 + rng.below(280) : 15 + rng.below(90);
+    if (CB >= 22 && nops > 80) nops = 80;
     vh::set_case_desc("IdSetDense<%s,%zu> %s universe=%s nops=%" PRIu64, tname<T>(), CB, heavy ? "heavy" : "", heavy ? (variant % 2 ? "below-top" : "top") : CN[cat], nops);
     h.run(nops);
     vh::evaluated(h.evals());
@@ -550,19 +559,29 @@ void nwr_case(uint64_t idx, vh::Rng& rng, const char* name) {
 }
 
 void case_idset(uint64_t idx, vh::Rng& rng) {
-    switch (idx % 11) {
-        case 0: dense_case<uint32_t, 3>(idx, rng, false, 0); break;
-        case 1: dense_case<uint32_t, 4>(idx, rng, false, 0); break;
-        case 2: dense_case<uint32_t, 8>(idx, rng, false, 0); break;
-        case 3: dense_case<uint32_t, 22>(idx, rng, false, 0); break;
-        case 4: dense_case<uint64_t, 3>(idx, rng, false, 0); break;
-        case 5: dense_case<uint64_t, 4>(idx, rng, false, 0); break;
-        case 6: dense_case<uint64_t, 8>(idx, rng, false, 0); break;
-        case 7: dense_case<uint64_t, 22>(idx, rng, false, 0); break;
-        case 8: small_case<uint32_t>(idx, rng); break;
-        case 9: small_case<uint64_t>(idx, rng); break;
+    // 33 consecutive cases: 3 x (6 small-chunk dense instantiations, 2 x IdSetSmall, nwr_array, one more
+    // dense one) and 3 histories with the production chunk size (expensive to iterate)
+    const uint64_t slot = idx % 33;
+    if (slot >= 30) {
+        if (slot == 30) dense_case<uint32_t, 22>(idx, rng, false, -1);
+        else if (slot == 31) dense_case<uint64_t, 22>(idx, rng, false, -1);
+        else if ((idx / 33) % 2) dense_case<uint32_t, 22>(idx, rng, false, CAT_TOP);
+        else dense_case<uint64_t, 22>(idx, rng, false, CAT_TOP);
+        return;
+    }
+    uint64_t k = slot % 10;
+    if (k == 9) k = (idx / 10) % 6;
+    switch (k) {
+        case 0: dense_case<uint32_t, 3>(idx, rng, false, -1); break;
+        case 1: dense_case<uint32_t, 4>(idx, rng, false, -1); break;
+        case 2: dense_case<uint32_t, 8>(idx, rng, false, -1); break;
+        case 3: dense_case<uint64_t, 3>(idx, rng, false, -1); break;
+        case 4: dense_case<uint64_t, 4>(idx, rng, false, -1); break;
+        case 5: dense_case<uint64_t, 8>(idx, rng, false, -1); break;
+        case 6: small_case<uint32_t>(idx, rng); break;
+        case 7: small_case<uint64_t>(idx, rng); break;
         default:
-            if ((idx / 11) % 2) nwr_case<osmium::index::IdSetSmall<uint32_t>>(idx, rng, "IdSetSmall<uint32_t>");
+            if ((idx / 33) % 2) nwr_case<osmium::index::IdSetSmall<uint32_t>>(idx, rng, "IdSetSmall<uint32_t>");
             else nwr_case<osmium::index::IdSetDense<uint64_t, 8>>(idx, rng, "IdSetDense<uint64_t,8>");
             break;
     }
